@@ -76,6 +76,21 @@ Theorem C09_encode_parse_round_trip : forall o cap seq fc hs bytes,
 Proof. exact encode_parse_round_trip. Qed.
 Print Assumptions C09_encode_parse_round_trip.
 
+(* P1: function, flags (FIR/FIN/CON/UNS, sequence) and IIN: the header a writer emits is parsed back, the
+   object headers being everything that follows ... *)
+Theorem C09_header_round_trip : forall h objs, ac_seq (ah_control h) < 16 -> afunction_known (ah_function h) = true ->
+  (afunction_has_iin (ah_function h) = true <-> ah_iin h <> None) ->
+  aparse_header (awrite_header h ++ objs) = AOk (h, objs).
+Proof. exact header_round_trip. Qed.
+Print Assumptions C09_header_round_trip.
+
+(* ... and the header parser accepts only such encodings *)
+Theorem C09_header_parse_exact : forall l h objs, abytes_ok l -> aparse_header l = AOk (h, objs) ->
+  l = awrite_header h ++ objs /\ afunction_known (ah_function h) = true
+  /\ ac_seq (ah_control h) < 16 /\ (afunction_has_iin (ah_function h) = true <-> ah_iin h <> None).
+Proof. exact header_parse_exact. Qed.
+Print Assumptions C09_header_parse_exact.
+
 (* ---- non-vacuity ---------------------------------------------------------------------------------- *)
 Definition ex_opts := {| ao_zero_length_strings := false |}.
 
